@@ -25,6 +25,22 @@ Accepted subset (anything else: SystemExit naming the node):
                constructor calls (positional or keyword) of the pattern classes and Proved; frozendict(E); {**A, **B};
                {k: E for k, v in D.items()} ; {k: v for k, v in D.items() if T}; method calls e.m(args) for the translated
                methods; self.simplify(); self.can_be_replaced_by(E); <Proved>.conclusion; str()/f-strings only inside assert messages
+
+Canonical forms (robustness rounds; equivalent idioms give the same text):
+  * a test `negb c` is the test `c` with the branches exchanged (mk_if): negated tests with swapped branches, `!=` for `==`,
+    `is None` / `is not None` orders, conditional expressions, early returns, `else` after a returning branch
+  * `not (A and B)` = `not A or not B` (de Morgan, same evaluation order), `not (a == b)` = `a != b`, `not (a in b)` = `a not in b`
+  * `D or E` / `D and E` on dicts = `D if D else E` / `E if D else D`
+  * a local is its value (class methods, rules: always; matching functions: when the value already has a name), so naming or
+    inlining an intermediate result does not matter
+  * `a, b = x, y`; `a, b = <pair>`; `a, b = self.helper(..)` / `Class.helper(..)` with a straight-line helper (instance or static
+    method) returning a tuple: the helper's statements renamed apart
+  * `for f in (A, B, C): BODY` with a literal tuple = the copies of BODY; `zip(p, q)` of two pairs = the list of the two
+    component pairs; a `for` over any expression of that type is the local structural loop
+  * a helper function keeps what an `isinstance` test established about the argument it is given
+  * `PRE; while isinstance(param, C): param = E; REST` = the tail call `if isinstance(param, C): return f(E, ...)`, under the
+    side condition (emitted as a lemma of the generated file, so checked by Coq, not here) that re-running PRE on its own
+    results changes nothing
 """
 from __future__ import annotations
 
@@ -188,6 +204,16 @@ def tr(ctx, e, k):
     if isinstance(e, ast.Dict) and not e.keys:
         return k('[]', 'dict')
     if isinstance(e, ast.UnaryOp) and isinstance(e.op, ast.Not):
+        o = e.operand
+        # de Morgan (same evaluation order and short circuit), negated comparisons
+        if isinstance(o, ast.BoolOp):
+            n_ = ast.BoolOp(op=ast.Or() if isinstance(o.op, ast.And) else ast.And(),
+                            values=[ast.copy_location(ast.UnaryOp(op=ast.Not(), operand=v), v) for v in o.values])
+            return tr(ctx, ast.copy_location(n_, e), k)
+        FLIP = {ast.Eq: ast.NotEq, ast.NotEq: ast.Eq, ast.In: ast.NotIn, ast.NotIn: ast.In, ast.Is: ast.IsNot, ast.IsNot: ast.Is}
+        if isinstance(o, ast.Compare) and len(o.ops) == 1 and type(o.ops[0]) in FLIP:
+            return tr(ctx, ast.copy_location(ast.Compare(left=o.left, ops=[FLIP[type(o.ops[0])]()], comparators=o.comparators), e), k)
+
         def kn(t, ty):
             if ty == 'dict':
                 return k(f'(isnil {t})', 'bool')
@@ -316,6 +342,10 @@ def tr(ctx, e, k):
         if isinstance(f, ast.Name):
             if f.id == 'set' and not e.args:
                 return k('[]', 'set')
+            if f.id == 'zip' and len(e.args) == 2 and all(kw.arg == 'strict' for kw in e.keywords):
+                # the two components of two pairs, side by side
+                return tr(ctx, e.args[0], lambda ta, tya: tr(ctx, e.args[1], lambda tb, tyb:
+                          k(f'[(fst {ta}, fst {tb}); (snd {ta}, snd {tb})]', 'eqs') if tya == tyb == 'pair' else die(e, f'zip of {tya} and {tyb}')))
             if f.id == 'frozendict' and len(e.args) == 1:
                 return tr(ctx, e.args[0], lambda t, ty: k(t, 'dict') if ty == 'dict' else die(e, 'frozendict of non-dict'))
             if f.id == 'Proved' and len(e.args) == 1:
@@ -525,6 +555,37 @@ def terminates(stmts):
     return False
 
 
+class _Subst(ast.NodeTransformer):
+    def __init__(self, name, repl):
+        self.name, self.repl = name, repl
+
+    def visit_Name(self, node):
+        if node.id == self.name and isinstance(node.ctx, ast.Load):
+            import copy
+            return ast.copy_location(copy.deepcopy(self.repl), node)
+        return node
+
+
+class _Rename(ast.NodeTransformer):
+    def __init__(self, names, pre):
+        self.names, self.pre = names, pre
+
+    def visit_Name(self, node):
+        if node.id in self.names:
+            return ast.copy_location(ast.Name(id=self.pre + node.id, ctx=node.ctx), node)
+        return node
+
+
+def rename_locals(stmt, names, pre):
+    import copy
+    return _Rename(names, pre).visit(copy.deepcopy(stmt))
+
+
+def subst_name(stmt, name, repl):
+    import copy
+    return ast.fix_missing_locations(_Subst(name, repl).visit(copy.deepcopy(stmt)))
+
+
 def normalise(stmts):
     """`return A if c else B` = `if c: return A` / `return B`;  `if c: <returns> else: REST` = `if c: <returns>` followed by REST
     (an else branch after a returning branch is an early return); applied recursively"""
@@ -548,6 +609,14 @@ def normalise(stmts):
             n = ast.If(test=s.test, body=body, orelse=orelse)
             ast.copy_location(n, s)
             out.append(n)
+            continue
+        if (isinstance(s, ast.For) and isinstance(s.iter, (ast.Tuple, ast.List)) and isinstance(s.target, ast.Name) and not s.orelse
+                and all(isinstance(x, (ast.Name, ast.Attribute)) for x in s.iter.elts)
+                and not any(isinstance(x, (ast.Break, ast.Continue)) for b in s.body for x in ast.walk(b))
+                and not any(isinstance(x, ast.Name) and x.id == s.target.id and isinstance(x.ctx, ast.Store) for b in s.body for x in ast.walk(b))):
+            # `for f in (A, B, C): BODY` = BODY[f:=A]; BODY[f:=B]; BODY[f:=C]
+            for elt in s.iter.elts:
+                out.extend(normalise([subst_name(b, s.target.id, elt) for b in s.body]))
             continue
         if isinstance(s, ast.For):
             n = ast.For(target=s.target, iter=s.iter, body=normalise(s.body), orelse=s.orelse)
@@ -604,6 +673,45 @@ def block(ctx, stmts, rty):
                 ctx.env[tgt.elts[1].id] = (b, 'pat')
                 return f'bind (extract_imp n {t}) (fun lr => let {a} := fst lr in let {b} := snd lr in {block(ctx, rest, rty)})'
             return tr(ctx, s.value.args[0], kx)
+        # a, b = x, y  (the right-hand sides do not mention the targets): two assignments
+        if (isinstance(tgt, ast.Tuple) and isinstance(s.value, ast.Tuple) and len(tgt.elts) == len(s.value.elts)
+                and all(isinstance(x, ast.Name) for x in tgt.elts)
+                and not ({x.id for x in tgt.elts} & {n.id for v in s.value.elts for n in ast.walk(v) if isinstance(n, ast.Name)})):
+            seq = [ast.copy_location(ast.Assign(targets=[t_], value=v_), s) for t_, v_ in zip(tgt.elts, s.value.elts)]
+            return block(ctx, seq + rest, rty)
+        # a, b = self.helper(args) / Class.helper(args): the helper's statements, its parameters and locals renamed apart,
+        # with `return x, y` turned into the assignment of the targets
+        if isinstance(tgt, ast.Tuple) and isinstance(s.value, ast.Call) and isinstance(s.value.func, ast.Attribute) \
+                and isinstance(s.value.func.value, ast.Name) and not s.value.keywords:
+            recv, m = s.value.func.value.id, s.value.func.attr
+            hcls = ctx.cls if recv in ('self', ctx.cls) else None
+            dc, fn = resolve(ctx.classes, hcls, m) if hcls and m not in METHODS else (None, None)
+            if fn is None:
+                die(s, 'unpacking the result of an unknown helper')
+            params = [a.arg for a in fn.args.args]
+            deco = [d.id for d in fn.decorator_list if isinstance(d, ast.Name)]
+            if len(deco) != len(fn.decorator_list) or any(d != 'staticmethod' for d in deco) or fn.args.defaults \
+                    or fn.args.kwonlyargs or fn.args.vararg or fn.args.kwarg:
+                die(fn, 'helper signature')
+            if 'staticmethod' not in deco:
+                if recv != 'self' or not params or params[0] != 'self':
+                    die(s, 'instance helper called without self')
+                params = params[1:]
+            hb = body_of(fn)
+            if len(params) != len(s.value.args) or not hb or not isinstance(hb[-1], ast.Return) or hb[-1].value is None \
+                    or any(isinstance(x, (ast.Return, ast.If, ast.For, ast.While)) for st in hb[:-1] for x in ast.walk(st)):
+                die(fn, 'helper must be straight-line code ending in one return')
+            HELPER_N[0] += 1
+            pre = f'_h{HELPER_N[0]}_'
+            local = set(params) | {x.id for st in hb for x in ast.walk(st) if isinstance(x, ast.Name) and isinstance(x.ctx, ast.Store)}
+            if 'staticmethod' in deco and any(isinstance(x, ast.Name) and x.id == 'self' for st in hb for x in ast.walk(st)):
+                die(fn, 'self in a static method')
+            hb = [rename_locals(st, local, pre) for st in hb]
+            seq = [ast.copy_location(ast.Assign(targets=[ast.Name(id=pre + p, ctx=ast.Store())], value=a), s)
+                   for p, a in zip(params, s.value.args)]
+            seq += hb[:-1]
+            seq.append(ast.copy_location(ast.Assign(targets=[tgt], value=hb[-1].value), s))
+            return block(ctx, [ast.fix_missing_locations(x) for x in seq] + rest, rty)
         if not isinstance(tgt, ast.Name):
             die(s, 'assignment target')
         # the accumulation loop:  x = set(); for v in E: if T: x = x.union(A) else: x.add(B)
@@ -763,6 +871,8 @@ def fblock(ctx, stmts, cont):
 
                 def ka(t, ty):
                     c2.env[params[i]] = (t, ty)
+                    if isinstance(v.args[i], ast.Name) and v.args[i].id in ctx.refined:
+                        c2.refined[params[i]] = ctx.refined[v.args[i].id]      # same object, same class
                     return hargs(i + 1)
                 return tr(ctx, v.args[i], ka)
             return hargs(0)
@@ -785,10 +895,29 @@ def fblock(ctx, stmts, cont):
                 ctx.env[d] = (v, 'dict')
                 return f'(let {v} := aset {tk} {tv} {td} in {after(ctx)})'
             return tr(ctx, tgt.value, kd)
+        if isinstance(tgt, ast.Tuple) and len(tgt.elts) == 2 and all(isinstance(x, ast.Name) for x in tgt.elts):
+            # a, b = <pair>: the two components
+            def kp(t, ty):
+                if ty not in ('pair', 'Npat'):
+                    die(s, f'unpacking of {ty}')
+                ctx.env[tgt.elts[0].id] = (f'(fst {t})', 'pat' if ty == 'pair' else 'N')
+                ctx.env[tgt.elts[1].id] = (f'(snd {t})', 'pat')
+                for x in tgt.elts:
+                    ctx.refined.pop(x.id, None)
+                return after(ctx)
+            return tr(ctx, s.value, kp)
         if not isinstance(tgt, ast.Name):
             die(s, 'assignment target')
 
         def ka(t, ty):
+            if re.fullmatch(r"[A-Za-z_][A-Za-z0-9_']*", t):
+                # another name for a value that already has one
+                ctx.env[tgt.id] = (t, ty)
+                if isinstance(s.value, ast.Name) and s.value.id in ctx.refined:
+                    ctx.refined[tgt.id] = ctx.refined[s.value.id]
+                else:
+                    ctx.refined.pop(tgt.id, None)
+                return after(ctx)
             v = ctx.fresh('v', ty)
             ctx.env[tgt.id] = (v, ty)
             ctx.refined.pop(tgt.id, None)
@@ -881,8 +1010,11 @@ def fblock(ctx, stmts, cont):
     if isinstance(s, ast.For):
         # for a, b in <list parameter>: body   -- a local structural loop; the loop state = the dict variables assigned in the body
         if not (isinstance(s.target, ast.Tuple) and len(s.target.elts) == 2 and all(isinstance(x, ast.Name) for x in s.target.elts)
-                and isinstance(s.iter, ast.Name) and s.iter.id in ctx.env and ctx.env[s.iter.id][1] == 'eqs' and not s.orelse):
+                and not s.orelse):
             die(s, 'loop shape')
+        it_t, it_ty = tr_pure_any(ctx, s.iter)
+        if it_ty != 'eqs':
+            die(s, f'loop over {it_ty}')
         assigned = sorted({t.id for n in ast.walk(s) if isinstance(n, ast.Assign) for t in n.targets if isinstance(t, ast.Name)
                            and t.id in ctx.env and ctx.env[t.id][1] == 'dict'})
         if len(assigned) != 1:
@@ -900,8 +1032,72 @@ def fblock(ctx, stmts, cont):
         done = after(c3)
         ctx.n = c3.n
         return (f'((fix loop (l:list (ppat*ppat)) ({sv}:delta) {{struct l}} : option (option delta) := '
-                f'match l with | [] => {done} | {e} :: t => {body} end) {ctx.env[s.iter.id][0]} {ctx.env[st][0]})')
+                f'match l with | [] => {done} | {e} :: t => {body} end) {it_t} {ctx.env[st][0]})')
     die(s, 'statement')
+
+
+HELPER_N = [0]  # renaming apart of inlined helpers' locals
+def loop_to_tailcall(fn, env):
+    """`PRE; while isinstance(x, C): x = E; REST` with x a parameter, PRE pure assignments `v = e(p)` each reading one other
+    parameter p that nothing else reads: the loop is the tail call `if isinstance(x, C): return fn(E, ..., v for p, ...)`,
+    PROVIDED re-running PRE on the passed values gives the same values, e(v) = v.  That proviso is not decided here: it is
+    emitted as a lemma of the generated file (the build fails if it does not hold).
+    Returns (statements, [(lemma variable type, e(e(x)), e(x))])"""
+    stmts = body_of(fn)
+    params = [a.arg for a in fn.args.args]
+    for j, s in enumerate(stmts):
+        if not isinstance(s, ast.While):
+            continue
+        t = s.test
+        if not (not s.orelse and isinstance(t, ast.Call) and isinstance(t.func, ast.Name) and t.func.id == 'isinstance' and len(t.args) == 2
+                and isinstance(t.args[0], ast.Name) and t.args[0].id in params and isinstance(t.args[1], ast.Name)
+                and len(s.body) == 1 and isinstance(s.body[0], ast.Assign) and len(s.body[0].targets) == 1
+                and isinstance(s.body[0].targets[0], ast.Name) and s.body[0].targets[0].id == t.args[0].id):
+            die(s, 'while loop (only `while isinstance(param, C): param = E`)')
+        x = t.args[0].id
+        pre = {}
+        for p_ in stmts[:j]:
+            if isinstance(p_, ast.AnnAssign) and p_.value is None:
+                continue
+            tgt = p_.targets[0] if isinstance(p_, ast.Assign) and len(p_.targets) == 1 else getattr(p_, 'target', None)
+            if not (isinstance(p_, (ast.Assign, ast.AnnAssign)) and isinstance(tgt, ast.Name) and tgt.id not in params and tgt.id not in pre
+                    and not any(isinstance(n, (ast.Call, ast.Subscript, ast.NamedExpr, ast.Attribute)) for n in ast.walk(p_.value))):
+                die(p_, 'statement before a while loop must be a pure assignment to a fresh local')
+            names = {n.id for n in ast.walk(p_.value) if isinstance(n, ast.Name)}
+            if len(names) != 1 or not names <= set(params) - {x}:
+                die(p_, 'assignment before a while loop must read exactly one parameter other than the loop variable')
+            pre[tgt.id] = (names.pop(), p_.value)
+        by_param = {}
+        for v, (p, e) in pre.items():
+            if p in by_param:
+                die(s, f'parameter {p} read twice before the loop')
+            by_param[p] = (v, e)
+        later = {n.id for st in stmts[j:] for n in ast.walk(st) if isinstance(n, ast.Name)}
+        if later & set(by_param):
+            die(s, 'a parameter consumed before the loop is used again')
+        args, side = [], []
+        for p in params:
+            if p == x:
+                args.append(s.body[0].value)
+            elif p in by_param:
+                v, e = by_param[p]
+                args.append(ast.Name(id=v, ctx=ast.Load()))
+                ty = env[p][1]
+                c1 = Ctx(None, {}, True)
+                c1.env = {p: ('x', ty)}
+                t1 = tr_pure(c1, e, ty)
+                c1.env = {p: (t1, ty)}
+                t2 = tr_pure(c1, e, ty)
+                side.append((COQ_TAG[ty], t2, t1))
+            else:
+                args.append(ast.Name(id=p, ctx=ast.Load()))
+        call = ast.Call(func=ast.Name(id=fn.name, ctx=ast.Load()), args=args, keywords=[])
+        new = ast.If(test=t, body=[ast.Return(value=call)], orelse=[])
+        out = stmts[:j] + [ast.fix_missing_locations(ast.copy_location(new, s))] + stmts[j + 1:]
+        if any(isinstance(n, ast.While) for st in out for n in ast.walk(st)):
+            die(s, 'more than one while loop')
+        return out, side
+    return stmts, []
 
 
 FUNCS = {}     # module-level functions of pattern.py
@@ -920,7 +1116,13 @@ def gen_matching(tree, classes):
     ctx.env = {'pattern': ('a_pattern', 'pat'), 'instance': ('a_instance', 'pat'), 'extend': ('a_extend', 'dict')}
     del AUX[:]
     BINDER_T.clear()
-    body = fblock(ctx, body_of(f), None)
+    stmts, side = loop_to_tailcall(f, ctx.env)
+    body = fblock(ctx, stmts, None)
+    for i, (ty, t2, t1) in enumerate(side):
+        out.append('(* a head loop of match_single was read as a tail call; this is the condition under which that is the same:\n'
+                   '   the assignments before the loop, run again on their own results, change nothing *)\n'
+                   f'Lemma src_match_single_loop_pre{i + 1} : forall x:{ty}, {t2} = {t1}.\n'
+                   'Proof. intro x; destruct x; reflexivity. Qed.\n')
     out.append('(* continuations of match_single shared by both outcomes of a test (one definition each, innermost first) *)')
     for _name, text in AUX:
         out.append(text)
